@@ -485,6 +485,18 @@ func (x *Exec) ghost(name string, fn *ssa.Function, args []*Val, st *State, pos 
 		return scalar(rt, "("+fname+" "+e+")", srt)
 	case "mulGE":
 		// a*ka >= b*c*kbc over the naturals
+		if x.sc.bvMode {
+			// bit-vector mode: 192-bit arithmetic (a*ka < 2^128, b*c*kbc < 2^192: no wrap-around).
+			// b*c is built as the 128-bit product of the zero-extended operands, the same term the
+			// model of math/bits.Mul64 uses, so code that computes it that way shares it.
+			z := func(v *Val, by int) string {
+				return fmt.Sprintf("((_ zero_extend %d) %s)", by, v.S)
+			}
+			bc := "((_ zero_extend 64) (bvmul " + z(args[2], 64) + " " + z(args[3], 64) + "))"
+			lhs := "(bvmul " + z(args[0], 128) + " " + z(args[1], 128) + ")"
+			rhs := "(bvmul " + bc + " " + z(args[4], 128) + ")"
+			return scalar(boolT, "(bvuge "+lhs+" "+rhs+")", "Bool")
+		}
 		n := func(v *Val) string {
 			if lit, ok := isLit(v.S); ok {
 				return fmt.Sprint(lit)
